@@ -122,7 +122,7 @@ def strlit_modules(rng, tier):
         if base in BOUNDED:
             # the fixer refuses an octet outside the built-in alphabet: one small module per literal class (a refusal masks nothing)
             for li, lit in enumerate(LIT_ORDER):
-                poss = POSITIONS if full else ["top", "member"] + [POSITIONS[2 + (ti + li) % 6]]
+                poss = POSITIONS if full else ["top", POSITIONS[1 + (ti + li) % 7]]
                 lines, sites = [], []
                 for k, pos in enumerate(poss):
                     l_, s_ = site(pos, base, lit, k)
@@ -130,19 +130,19 @@ def strlit_modules(rng, tier):
                     sites.append(s_)
                 out.append(mod("Sl%s%s" % (cname(base), "".join(w.capitalize() for w in lit.split("-"))), lines, sites, rot[(ti + li) % 4], base=base, literal=lit))
         else:
-            # nothing is refused: all literal classes in one module; quick: every class at type and member level, every other
-            # position for 5 rotating classes (thorough: the full product)
+            # nothing is refused: all literal classes in one module; quick: every class at type level, every other position
+            # for 3-4 rotating classes (thorough: the full product)
             lines, sites, k = [], [], 0
             for li, lit in enumerate(LIT_ORDER):
-                poss = POSITIONS if full else ["top", "member"] + [p for pi, p in enumerate(POSITIONS[2:]) if (li + pi + ti) % 4 == 0]
+                poss = POSITIONS if full else ["top"] + [p for pi, p in enumerate(POSITIONS[1:]) if (li + pi + ti) % 7 == 0]
                 for pos in poss:
                     l_, s_ = site(pos, base, lit, k)
                     lines += l_
                     sites.append(s_)
                     k += 1
             out.append(mod("Sl%sAll" % cname(base), lines, sites, rot[ti % 3], base=base, literal="all"))
-        # value positions: quick 2 of the 6 value literal classes per type in rotation (thorough: all)
-        vl = VALUE_LITS if full else [VALUE_LITS[(2 * ti) % 6], VALUE_LITS[(2 * ti + 1 + ti // 3) % 6]]
+        # value positions: quick 1 of the 6 value literal classes per type in rotation (thorough: all)
+        vl = VALUE_LITS if full else [VALUE_LITS[ti % 6]]
         for lit in dict.fromkeys(vl):
             lines = []
             for k, pos in enumerate(VALUE_POSITIONS):
